@@ -46,6 +46,10 @@ pub struct DriftCase {
     pub mode: DiffMode,
     pub hostile: bool,
     pub deleted_extra_file: bool,
+    /// other entries in the same diff: bit 0 a binary file changes, bit 1 an empty file is added,
+    /// bit 2 a file of an unknown suffix changes, bit 3 a text file loses its only line
+    #[serde(default)]
+    pub extras: u8,
 }
 
 const DIRS: &[&str] = &["", "d/", "src/lib/", "a b/"];
@@ -247,6 +251,18 @@ pub fn state_pair(c: &DriftCase, w: &World) -> StatePair {
             _ => (w.paths[i].clone(), Some(new.clone()), Some(new), None),
         };
         files.push(entry);
+    }
+    if c.extras & 1 != 0 {
+        files.push(("assets/blob.bin".into(), Some("\0\u{1}\u{2}binary-old".into()), Some("\0\u{1}\u{3}binary-new-longer".into()), None));
+    }
+    if c.extras & 2 != 0 {
+        files.push(("empty_new.py".into(), None, Some(String::new()), None));
+    }
+    if c.extras & 4 != 0 {
+        files.push(("notes.unknownext".into(), Some("# <block>\nold\n".into()), Some("# <block>\nnew </block> </block>\n".into()), None));
+    }
+    if c.extras & 8 != 0 {
+        files.push(("emptied.py".into(), Some("x = 1\n".into()), Some(String::new()), None));
     }
     if c.deleted_extra_file {
         files.push(("gone.py".into(), Some("# <block name=\"g\">\nx = 1\n# </block>\n".into()), None, None));
@@ -523,13 +539,13 @@ pub fn file_strategy() -> BoxedStrategy<DFile> {
 }
 
 pub fn case_strategy() -> BoxedStrategy<DriftCase> {
-    (proptest::collection::vec(file_strategy(), 1..5), gitcase::mode_strategy(), proptest::bool::weighted(0.1), proptest::bool::weighted(0.1))
-        .prop_map(|(files, mode, hostile, deleted_extra_file)| DriftCase { files, mode, hostile, deleted_extra_file })
+    (proptest::collection::vec(file_strategy(), 1..5), gitcase::mode_strategy(), proptest::bool::weighted(0.1), proptest::bool::weighted(0.1), prop_oneof![3 => Just(0u8), 1 => 0u8..16])
+        .prop_map(|(files, mode, hostile, deleted_extra_file, extras)| DriftCase { files, mode, hostile, deleted_extra_file, extras })
         .boxed()
 }
 
 pub fn run(run: &mut Run) {
-    run.rule = "random: 1..4 files of random suffixes (root or sub-directories, one with a space), each a balanced list of own-line tag comments (any comment form of the language, 15% multi-line comments, indentation), blocks named from a pool of 5 (duplicates, unnamed) with affects lists of 1..3 references (same file, other file, missing file, missing name, cycles) and code lines; an edit script of 0..8 operations on new-side lines (add k lines, delete k lines at a gap, replace a line incl. tag lines) from which the old state is derived; file fates modified / renamed / new / untouched / an extra deleted file; hostile removed lines (`-- x`, `--- a/f`, `@@ -1 +1 @@`, …) in 10%; missing trailing newline in 15%; real git in a generated mode (-U0..10, unstaged/--cached/HEAD/commit-to-commit, 4 diff algorithms, -M). Oracle part 1: flag per block from an independent reader of git's diff (must / must-not / unspecified zones), part 2: affects diagnostics = reference model over the listed flags, exit status; part 3: after touching every linked block the run passes. Non-trivial = a file with >= 2 hunks, a must-modified block with affects and a must-not block.".into();
+    run.rule = "random: 1..4 files of random suffixes (root or sub-directories, one with a space), each a balanced list of own-line tag comments (any comment form of the language, 15% multi-line comments, indentation), blocks named from a pool of 5 (duplicates, unnamed) with affects lists of 1..3 references (same file, other file, missing file, missing name, cycles) and code lines; an edit script of 0..8 operations on new-side lines (add k lines, delete k lines at a gap, replace a line incl. tag lines) from which the old state is derived; file fates modified / renamed / new / untouched / an extra deleted file; in 25% further entries in the same diff (a binary file, an added empty file, a changed file of unknown suffix holding unbalanced tags, a file emptied); hostile removed lines (`-- x`, `--- a/f`, `@@ -1 +1 @@`, …) in 10%; missing trailing newline in 15%; real git in a generated mode (-U0..10, unstaged/--cached/HEAD/commit-to-commit, 4 diff algorithms, -M). Oracle part 1: flag per block from an independent reader of git's diff (must / must-not / unspecified zones), part 2: affects diagnostics = reference model over the listed flags, exit status; part 3: after touching every linked block the run passes. Non-trivial = a file with >= 2 hunks, a must-modified block with affects and a must-not block.".into();
     run.assumptions = vec![
         "file names avoid characters git C-quotes".into(),
         "mixed -/+ groups count through their added lines only (removed lines of a mixed group are not asserted: see K2 in DESIGN.md)".into(),
